@@ -4,7 +4,8 @@ from __future__ import annotations
 from .. import lossrec
 from . import _func, _loss
 
-MC = """SPECIFICATION Spec
+MC = """CONSTANT Sel = "all"
+SPECIFICATION Spec
 INVARIANT Emit
 """
 
